@@ -320,6 +320,24 @@ Section Moves.
   Theorem swap_unit (n : nat) (m : list T) (l r : nat) : real_swap n m l r = real_swap_ n m l 1 r 1.
   Proof. reflexivity. Qed.
 
+  (* ---- a_real_swap (restrict: the two blocks do not overlap): the blocks are exchanged, nothing else changes *)
+  Theorem swap_spec (n : nat) (m : list T) (l r : nat) : l + n <= length m -> r + n <= length m -> (l + n <= r \/ r + n <= l) ->
+    exists m', real_swap n m l r = Some m' /\
+      agrees m' (length m) (fun k => if (l <=? k) && (k <? l + n) then nth (r + (k - l)) m d0
+                                        else if (r <=? k) && (k <? r + n) then nth (l + (k - r)) m d0 else nth k m d0).
+  Proof.
+    intros Hl Hr Hd. rewrite swap_unit.
+    destruct (swap__spec n m l 1 r 1) as (m' & E & L & C & O); try lia.
+    exists m'. split; [exact E|]. split; [exact L|]. intros k Hk.
+    destruct ((l <=? k) && (k <? l + n)) eqn:B1.
+    - apply andb_prop in B1. destruct B1 as [B1 B1']. apply Nat.leb_le in B1. apply Nat.ltb_lt in B1'.
+      destruct (C (k - l)) as [C1 _]; [lia|]. replace (l + (k - l) * 1) with k in C1 by lia. rewrite C1. f_equal. lia.
+    - destruct ((r <=? k) && (k <? r + n)) eqn:B2.
+      + apply andb_prop in B2. destruct B2 as [B2 B2']. apply Nat.leb_le in B2. apply Nat.ltb_lt in B2'.
+        destruct (C (k - r)) as [_ C2]; [lia|]. replace (r + (k - r) * 1) with k in C2 by lia. rewrite C2. f_equal. lia.
+      + apply O. intros j Hj. apply andb_false_iff in B1, B2. rewrite Nat.leb_gt, Nat.ltb_ge in B1, B2. lia.
+  Qed.
+
   (* ---- a_real_fill / a_real_zero: the first n cells become v, the others are untouched *)
   Lemma fill_from_spec (n : nat) : forall (m : list T) (i : nat) (v : T), i + n <= length m ->
     exists m', fill_from n m i v = Some m' /\ agrees m' (length m) (fun k => if (i <=? k) && (k <? i + n) then v else nth k m d0).
